@@ -377,33 +377,44 @@ Section DeliverProofs.
     apply consecutive_NoDup. exact Hlen.
   Qed.
 
+  (* two byte strings carrying the same (signer address, nonce) -- in particular
+     the same bytes, or two encodings of the same envelope -- are never both
+     authenticated in a history with at most 2^64 transactions of that signer *)
+  Lemma same_content_never_twice s o1 o2 o3 raw raw2 :
+    wf s ->
+    auth_info C raw2 = auth_info C raw ->
+    authenticated (snd (deliver C (run C s o1) raw)) = true ->
+    authenticated (snd (deliver C (run C s (o1 ++ OTx raw :: o2)) raw2)) = true ->
+    exists a, U64 < N.of_nat (length (of_addr a (trace C s (o1 ++ OTx raw :: o2 ++ OTx raw2 :: o3)))).
+  Proof.
+    intros Hwf Hsame A1 A2.
+    destruct (deliver_cases (run C s o1) raw) as [[_ [e [t Hf]]]|[X _]]; [|congruence].
+    pose proof (auth_facts_info _ _ _ _ _ Hf) as Hi.
+    pose proof Hi as Hi2. rewrite <- Hsame in Hi2.
+    set (a := addr_of C (e_pk e)) in *. exists a.
+    destruct (N.ltb_spec U64 (N.of_nat (length (of_addr a (trace C s (o1 ++ OTx raw :: o2 ++ OTx raw2 :: o3)))))) as [Hlt|Hle];
+      [exact Hlt|exfalso].
+    pose proof (no_replay s _ a Hwf Hle) as Hnd.
+    replace (o1 ++ OTx raw :: o2 ++ OTx raw2 :: o3)
+      with ((o1 ++ OTx raw :: o2) ++ OTx raw2 :: o3) in Hnd
+      by (rewrite <- app_assoc; reflexivity).
+    rewrite trace_app in Hnd. rewrite (trace_app s o1) in Hnd.
+    cbn [trace] in Hnd. rewrite A1, A2, Hi, Hi2 in Hnd.
+    rewrite !of_addr_app in Hnd.
+    assert (Hone : of_addr a [(a, t_nonce t)] = [t_nonce t]).
+    { unfold of_addr. cbn [filter fst]. rewrite N.eqb_refl. reflexivity. }
+    rewrite !Hone in Hnd.
+    rewrite <- !app_assoc in Hnd. cbn [app] in Hnd.
+    apply NoDup_remove_2 in Hnd. apply Hnd.
+    apply in_or_app. right. apply in_or_app. right. left. reflexivity.
+  Qed.
+
   Lemma same_bytes_never_twice s o1 o2 o3 raw :
     wf s ->
     authenticated (snd (deliver C (run C s o1) raw)) = true ->
     authenticated (snd (deliver C (run C s (o1 ++ OTx raw :: o2)) raw)) = true ->
     exists a, U64 < N.of_nat (length (of_addr a (trace C s (o1 ++ OTx raw :: o2 ++ OTx raw :: o3)))).
-  Proof.
-    intros Hwf A1 A2.
-    destruct (deliver_cases (run C s o1) raw) as [[_ [e [t Hf]]]|[X _]]; [|congruence].
-    pose proof (auth_facts_info _ _ _ _ _ Hf) as Hi.
-    set (a := addr_of C (e_pk e)) in *. exists a.
-    destruct (N.ltb_spec U64 (N.of_nat (length (of_addr a (trace C s (o1 ++ OTx raw :: o2 ++ OTx raw :: o3)))))) as [Hlt|Hle];
-      [exact Hlt|exfalso].
-    pose proof (no_replay s _ a Hwf Hle) as Hnd.
-    replace (o1 ++ OTx raw :: o2 ++ OTx raw :: o3)
-      with ((o1 ++ OTx raw :: o2) ++ OTx raw :: o3) in Hnd
-      by (rewrite <- app_assoc; reflexivity).
-    rewrite trace_app in Hnd. rewrite (trace_app s o1) in Hnd.
-    cbn [trace] in Hnd. rewrite A1, A2, Hi in Hnd.
-    rewrite !of_addr_app in Hnd.
-    unfold of_addr at 2 in Hnd. unfold of_addr at 4 in Hnd.
-    cbn [filter fst app] in Hnd. unfold a in Hnd at 2 4. rewrite !N.eqb_refl in Hnd.
-    cbn [map snd app] in Hnd.
-    rewrite <- app_assoc in Hnd. cbn [app] in Hnd.
-    apply NoDup_remove_2 in Hnd. apply Hnd.
-    apply in_or_app. right. apply in_or_app. right. apply in_or_app. left.
-    unfold of_addr. cbn [filter fst]. rewrite N.eqb_refl. left. reflexivity.
-  Qed.
+  Proof. intros Hwf. apply same_content_never_twice; [exact Hwf|reflexivity]. Qed.
 
   (* ---------- executes_only_if_authentic ---------- *)
   Lemma executes_only_if_authentic s raw :
